@@ -475,7 +475,20 @@ fn any_msg() -> impl Strategy<Value = MsgSpec> {
 		2 => (any::<u64>(), 1u8..=12, 0u8..4, any::<u8>()).prop_map(|(a, b, c, d)| MsgSpec::RangeProofSeg(a, b, c, d)),
 		2 => (any::<u64>(), 1u8..=40, 0u8..4, any::<u8>()).prop_map(|(a, b, c, d)| MsgSpec::OutputSeg(a, b, c, d)),
 		2 => (any::<u64>(), 1u8..=8, 0u8..4, any::<u8>()).prop_map(|(a, b, c, d)| MsgSpec::BitmapSeg(a, b, c, d)),
-		3 => (29u8..=255, 0u16..2000, any::<u64>()).prop_map(|(a, b, c)| MsgSpec::Unknown(a, b, c)),
+		3 => (29u8..=255, unknown_len(), any::<u64>()).prop_map(|(a, b, c)| MsgSpec::Unknown(a, b, c)),
+	]
+}
+
+/// body length of a frame of unknown type: anything up to the limit for such frames (4 x the largest block of
+/// the chain type: 31 152 bytes on AutomatedTesting) — short ones, lengths around the codec's initial buffer
+/// (8 KiB) and its multiples, and the limit itself with its neighbour
+fn unknown_len() -> impl Strategy<Value = u16> {
+	let limit = (4 * (grin_core::global::max_block_weight() / grin_core::consensus::OUTPUT_WEIGHT * 708)).min(60_000) as u16;
+	prop_oneof![
+		6 => 0u16..2000,
+		2 => 2000u16..=limit,
+		1 => Just(8191u16), 1 => Just(8192u16), 2 => Just(8193u16), 1 => Just(16_384u16), 1 => Just(16_385u16),
+		1 => Just(limit - 1), 2 => Just(limit),
 	]
 }
 
@@ -1876,7 +1889,7 @@ fn short_seq_strategy() -> impl Strategy<Value = (u8, Vec<MsgSpec>)> {
 	(0u8..4, prop::collection::vec(m, 2..=7))
 }
 
-const RULE: &str = "part frag: proptest generates (protocol version in {1,2,3,1000}, 1-12 messages, 4 fragmentation plans); headers/blocks/compact blocks are real mined objects of the prepared 89-block AutomatedTesting chain, transactions come from the asset library, segment responses are cut from small in-memory PMMRs by Segment::from_pmmr, the rest from typed generators, unknown type bytes 29..255 carry arbitrary bodies, TxHashSetArchive is followed by an attachment of 0..200000 bytes; every (sequence, plan) is one loopback TCP connection: the writer thread writes header‖body‖attachment split at the plan's cut points (whole / one cut / 2-40 random cuts / 1-byte dribble / all item boundaries -1,0,+1 / one cut inside every header and every body) with 0-5 ms pauses, the reader drives Codec::read like conn.rs (expect_attachment after TxHashSetArchive) and every received message is re-encoded and compared with the sent bytes (header batches concatenated, `remaining` and attachment `left` checked, sum of bytes_read = bytes sent); sweeps: every single cut point of short sequences (<= 600 bytes) plus a strided sweep over a long sequence (33 headers + attachment); header lists have 0 (the empty list a peer with nothing newer sends, frequent, in every position), 1, 31, 32, 33, 64, 65, 89 or random items; the empty list is additionally sent in directed sequences (alone, first, last, tripled, between batched lists, around attachments) at every version. part limits: for every type byte 0..28 and three unknown ones, on AutomatedTesting and Mainnet limits: wrong magic (other network / one bit flipped) and announced lengths nominal, nominal+1, 4x, 4x+1, 4x+4097, 2^32, 2^63, 2^64-1; header lists whose count field is n+1 / n-1 / 0 for n real headers (a zero count with trailing headers must be refused by the first read with nothing delivered); the bytes taken from the socket are measured by draining what the codec left; refused frames are re-read in a single-threaded child under the counting allocator. part handshake: real accept/initiate against a scripted peer advertising versions 0,1,2,3,999,1000,1001,2^32-1, two real instances (same / different genesis), one instance dialling itself. evaluations = connections of part frag + limit frames + allocator frames + handshakes. non-trivial = frag connection with >=1 cut strictly inside a message header and >=1 strictly inside a body/attachment whose sequence contains a header list of more than 32 items or a non-empty attachment; distinct by (version, set of message types, number of batches, number of attachment chunks, fragmentation kind)";
+const RULE: &str = "part frag: proptest generates (protocol version in {1,2,3,1000}, 1-12 messages, 4 fragmentation plans); headers/blocks/compact blocks are real mined objects of the prepared 89-block AutomatedTesting chain, transactions come from the asset library, segment responses are cut from small in-memory PMMRs by Segment::from_pmmr, the rest from typed generators, unknown type bytes 29..255 carry arbitrary bodies of any length up to the limit for such frames (weighted towards short ones, 8 KiB +-1, 16 KiB, the limit and limit-1), TxHashSetArchive is followed by an attachment of 0..200000 bytes; every (sequence, plan) is one loopback TCP connection: the writer thread writes header‖body‖attachment split at the plan's cut points (whole / one cut / 2-40 random cuts / 1-byte dribble / all item boundaries -1,0,+1 / one cut inside every header and every body) with 0-5 ms pauses, the reader drives Codec::read like conn.rs (expect_attachment after TxHashSetArchive) and every received message is re-encoded and compared with the sent bytes (header batches concatenated, `remaining` and attachment `left` checked, sum of bytes_read = bytes sent); sweeps: every single cut point of short sequences (<= 600 bytes) plus a strided sweep over a long sequence (33 headers + attachment); header lists have 0 (the empty list a peer with nothing newer sends, frequent, in every position), 1, 31, 32, 33, 64, 65, 89 or random items; the empty list is additionally sent in directed sequences (alone, first, last, tripled, between batched lists, around attachments) at every version. part limits: for every type byte 0..28 and three unknown ones, on AutomatedTesting and Mainnet limits: wrong magic (other network / one bit flipped) and announced lengths nominal, nominal+1, 4x, 4x+1, 4x+4097, 2^32, 2^63, 2^64-1; header lists whose count field is n+1 / n-1 / 0 for n real headers (a zero count with trailing headers must be refused by the first read with nothing delivered); the bytes taken from the socket are measured by draining what the codec left; refused frames are re-read in a single-threaded child under the counting allocator. part handshake: real accept/initiate against a scripted peer advertising versions 0,1,2,3,999,1000,1001,2^32-1, two real instances (same / different genesis), one instance dialling itself. evaluations = connections of part frag + limit frames + allocator frames + handshakes. non-trivial = frag connection with >=1 cut strictly inside a message header and >=1 strictly inside a body/attachment whose sequence contains a header list of more than 32 items or a non-empty attachment; distinct by (version, set of message types, number of batches, number of attachment chunks, fragmentation kind)";
 
 pub fn run(ctx: &Ctx) -> HResult<()> {
 	init_global();
